@@ -181,7 +181,7 @@ def IsReplyTo (x : Addr × Message) (m : Message) (src : Addr) (reply : Option R
      (∃ code e, reply = some (.error code) ∧ x.2.mtype = .error e))
 
 theorem sendReply_out (b : Actor) (m : Message) (src : Addr) (reply : Option Reply) :
-    (b.sendReply src m.tid reply).out = b.out ∨
+    (reply = none ∧ (b.sendReply src m.tid reply).out = b.out) ∨
     ∃ x, (b.sendReply src m.tid reply).out = b.out ++ [x] ∧ IsReplyTo x m src reply := by
   unfold sendReply
   split
@@ -189,7 +189,7 @@ theorem sendReply_out (b : Actor) (m : Message) (src : Addr) (reply : Option Rep
     exact Or.inr ⟨_, rfl, rfl, rfl, Or.inl ⟨r, rfl, rfl⟩⟩
   · rename_i code
     exact Or.inr ⟨_, rfl, rfl, rfl, Or.inr ⟨code, _, rfl, rfl⟩⟩
-  · exact Or.inl rfl
+  · exact Or.inl ⟨rfl, rfl⟩
 
 /-- what the first half of the tick does to the stores and puts on the wire: nothing but requests, unless
     the datagram is a request; then the stores are those `handle_request` leaves, and at most one reply —
@@ -200,7 +200,8 @@ theorem preDone_out (a : Actor) (env : Env) (dgram : Option (Message × Addr)) :
     ∃ m src req, dgram = some (m, src) ∧ m.mtype = .request req ∧
       C18.held (a.preDone env dgram) = heldC (handleRequest a.core env src m.readOnly m.version req).1 ∧
       ∃ l0 l, (a.preDone env dgram).out = a.out ++ l0 ++ l ∧ (∀ x ∈ l, ∃ r, x.2.mtype = .request r) ∧
-        (l0 = [] ∨ ∃ x, l0 = [x] ∧ IsReplyTo x m src (handleRequest a.core env src m.readOnly m.version req).2.1) := by
+        (((handleRequest a.core env src m.readOnly m.version req).2.1 = none ∧ l0 = []) ∨
+          ∃ x, l0 = [x] ∧ IsReplyTo x m src (handleRequest a.core env src m.readOnly m.version req).2.1) := by
   unfold preDone
   obtain ⟨ro, rc, _, _⟩ := recvPhase_time a env.now dgram
   have hh : ∀ m src, (a.recvPhase env.now dgram).2 = some (m, src) → dgram = some (m, src) :=
@@ -237,12 +238,12 @@ theorem preDone_out (a : Actor) (env : Env) (dgram : Option (Message × Addr)) :
       · have hq := C18.populate_quiet (b.sendReply src m.tid (handleRequest a1.core env src m.readOnly m.version req).2.1) env.now
         obtain ⟨l, hl, hp⟩ := hq.sent
         refine ⟨by rw [hq.stores, hsr, hbh], ?_⟩
-        rcases sendReply_out b m src (handleRequest a1.core env src m.readOnly m.version req).2.1 with h0 | ⟨x, h0, hx⟩
-        · exact ⟨[], l, by rw [hl, h0, hbo]; simp, fun y hy => (hp y hy).1, Or.inl rfl⟩
+        rcases sendReply_out b m src (handleRequest a1.core env src m.readOnly m.version req).2.1 with ⟨hn, h0⟩ | ⟨x, h0, hx⟩
+        · exact ⟨[], l, by rw [hl, h0, hbo]; simp, fun y hy => (hp y hy).1, Or.inl ⟨hn, rfl⟩⟩
         · exact ⟨[x], l, by rw [hl, h0, hbo], fun y hy => (hp y hy).1, Or.inr ⟨x, rfl, hx⟩⟩
       · refine ⟨by rw [hsr, hbh], ?_⟩
-        rcases sendReply_out b m src (handleRequest a1.core env src m.readOnly m.version req).2.1 with h0 | ⟨x, h0, hx⟩
-        · exact ⟨[], [], by rw [h0, hbo]; simp, (by intro y hy; cases hy), Or.inl rfl⟩
+        rcases sendReply_out b m src (handleRequest a1.core env src m.readOnly m.version req).2.1 with ⟨hn, h0⟩ | ⟨x, h0, hx⟩
+        · exact ⟨[], [], by rw [h0, hbo]; simp, (by intro y hy; cases hy), Or.inl ⟨hn, rfl⟩⟩
         · exact ⟨[x], [], by rw [h0, hbo]; simp, (by intro y hy; cases hy), Or.inr ⟨x, rfl, hx⟩⟩
     · left
       obtain ⟨f1, f2⟩ := fv { a1 with core := (handleResponse a1.core env src m).1 } (handleResponse a1.core env src m).2
@@ -275,7 +276,7 @@ theorem response_answers_the_datagram (a : Actor) (env : Env) (dgram : Option (M
     intro x hx
     rcases List.mem_append.1 hx with h | h
     · rcases List.mem_append.1 h with h' | h'
-      · rcases h0 with e0 | ⟨y, e0, hy⟩
+      · rcases h0 with ⟨_, e0⟩ | ⟨y, e0, hy⟩
         · rw [e0] at h'; cases h'
         · rw [e0] at h'
           simp only [List.mem_singleton] at h'
@@ -343,7 +344,7 @@ theorem node_ack_means_held (a : Actor) (env : Env) (m : Message) (src : Addr) (
     have hreply : ∃ r', (handleRequest a.core env src m.readOnly m.version ⟨rid, .put token spec⟩).2.1 = some (.response r') := by
       rcases List.mem_append.1 hx with h | h
       · rcases List.mem_append.1 h with h' | h'
-        · rcases h0 with e0 | ⟨y, e0, _, _, hy⟩
+        · rcases h0 with ⟨_, e0⟩ | ⟨y, e0, _, _, hy⟩
           · rw [e0] at h'; cases h'
           · rw [e0] at h'
             simp only [List.mem_singleton] at h'
